@@ -1,6 +1,186 @@
 import SigpyVerif.Model.Py
 import SigpyVerif.Model.Proto
+import SigpyVerif.Model.C14
+import SigpyVerif.Gen.C14Select
 namespace SigpyVerif.Drv.C14
-/-- protocol handler for property C14 (tokens after the property id). -/
-def handle (_toks : List String) : String := "err bad-op"
+open SigpyVerif SigpyVerif.Proto SigpyVerif.C14
+
+/-! Line protocol of C14.  Vectors `1/2,3`, lists of vectors / matrix rows separated by `|`. -/
+
+def parseVec? (s : String) : Option RV := (parseRatList? s).map RV.mk
+
+def parseVecs? (s : String) : Option (List RV) :=
+  if s == "-" then some [] else (s.splitOn "|").mapM parseVec?
+
+def parseMat? (s : String) (ncols : Nat) : Option Mat := do
+  let rows ← parseVecs? s
+  if rows.all (fun r => r.d.length == ncols) then some ⟨rows.map (·.d), ncols⟩ else none
+
+def parseOptRat? (s : String) : Option (Option Rat) :=
+  if s == "none" then some none else (parseRat? s).map some
+
+def parseProx? (s : String) : Option (Option ProxK) :=
+  match s.splitOn ":" with
+  | ["none"] => some none
+  | ["l1", c] => (parseRat? c).map fun c => some (.l1 c)
+  | ["l2", c] => (parseRat? c).map fun c => some (.l2 c)
+  | ["box", lo, hi] => do let lo ← parseRat? lo; let hi ← parseRat? hi; some (some (.box lo hi))
+  | _ => none
+
+def parseInst? (toks : List String) : Option Inst := do
+  let n ← ((kv toks "n").bind parseInt?).map Int.toNat
+  let A ← (kv toks "A").bind (parseMat? · n)
+  let y ← (kv toks "y").bind parseVec?
+  let lam ← (kv toks "lam").bind parseRat?
+  let zs ← kv toks "z"
+  let z ← if zs == "none" then some none else (parseVec? zs).map some
+  let prox ← (kv toks "prox").bind parseProx?
+  let gs ← kv toks "G"
+  let G ← if gs == "none" then some none else (parseMat? gs n).map some
+  if A.rows.length != y.d.length then none else
+  some { A := A, y := y, lam := lam, z := z, prox := prox, G := G }
+
+def fmtVec (v : RV) : String := fmtRatList v.d
+def fmtVecs (l : List RV) : String := if l.isEmpty then "-" else "|".intercalate (l.map fmtVec)
+
+def images (f : RV → RV) (n : Nat) : List RV := (List.range n).map fun j => f (RV.basis n j)
+
+def splitAt (v : RV) (k : Nat) : RV × RV := (⟨v.d.take k⟩, ⟨v.d.drop k⟩)
+
+/-- the stacked operator `Vstack([A, G])` and its adjoint -/
+def Kf (I : Inst) (x : RV) : RV :=
+  match I.G with
+  | none => I.Af x
+  | some G => (I.Af x).append (G.mulVec x)
+
+def KHf (I : Inst) (u : RV) : RV :=
+  match I.G with
+  | none => I.AHf u
+  | some G => let (u1, u2) := splitAt u I.A.rows.length; I.AHf u1 + G.tMulVec u2
+
+def dualDim (I : Inst) : Nat :=
+  I.A.rows.length + (match I.G with | none => 0 | some G => G.rows.length)
+
+def proxfcEval (I : Inst) (su : PdhgSetup Rat RV RV RV) (a : Rat) (u : RV) : RV :=
+  match su.proxfc2 with
+  | none => su.proxfc1.eval (fun _ v => v) a u
+  | some p2 =>
+    let (u1, u2) := splitAt u I.A.rows.length
+    (su.proxfc1.eval (fun _ v => v) a u1).append (p2.eval I.userProx a u2)
+
+def zip3 {α β γ : Type} : List α → List β → List γ → List (α × β × γ)
+  | a :: as, b :: bs, c :: cs => (a, b, c) :: zip3 as bs cs
+  | _, _, _ => []
+
+def handle (toks : List String) : String :=
+  let getR (k : String) := (kv toks k).bind parseRat?
+  let getO (k : String) := (kv toks k).bind parseOptRat?
+  let getV (k : String) := (kv toks k).bind parseVec?
+  let getVs (k : String) := (kv toks k).bind parseVecs?
+  let getN (k : String) := ((kv toks k).bind parseInt?).map Int.toNat
+  match toks.head? with
+  | some "sel" =>
+    match kv toks "solver", kv toks "proxg", kv toks "G" with
+    | some s, some p, some g =>
+      if (p != "0" && p != "1") || (g != "0" && g != "1") then "err bad-op" else
+      let solver := if s == "none" then none else some s
+      match Gen.C14.getAlg solver (p == "1") (g == "1") with
+      | .built n => s!"ok built {n}"
+      | .raised t => s!"ok raised {t}"
+      | .cont _ => "ok cont"
+    | _, _, _ => "err bad-op"
+  | some "cg-setup" =>
+    match parseInst? toks with
+    | some I =>
+      s!"ok M={fmtVecs (images (cgSys I.Af I.AHf I.lam) I.n)} b={fmtVec (cgRhs I.AHf I.y I.lam I.z)}"
+    | none => "err bad-op"
+  | some "gm-setup" =>
+    match parseInst? toks, getVs "px", getO "alpha", getR "maxeig" with
+    | some I, some px, some alpha, some me =>
+      let g := px.map (gmGrad I.Af I.AHf I.y I.lam I.z)
+      s!"ok E={fmtVecs (images (gmEigOp I.Af I.AHf I.lam) I.n)} g={fmtVecs g} alpha={fmtRat (gmAlpha alpha me)}"
+    | _, _, _, _ => "err bad-op"
+  | some "pdhg-setup" =>
+    match parseInst? toks, getO "tau", getO "sigma", getR "maxeig", (kv toks "pa").bind parseRatList?,
+          getVs "pu", getVs "px" with
+    | some I, some tau, some sigma, some me, some pa, some pu, some px =>
+      let su : PdhgSetup Rat RV RV RV := pdhgSetup I.y I.lam I.z I.prox.isSome I.G.isSome
+      let fc := (List.zip pa pu).map fun (a, u) => proxfcEval I su a u
+      let pg := (List.zip pa px).map fun (a, x) => su.proxg.eval I.userProx a x
+      let (side, E) :=
+        match pdhgEigSide tau sigma with
+        | .primal s => ("primal", images (fun x => KHf I (s • Kf I x)) I.n)
+        | .dual t => ("dual", images (fun u => Kf I (t • KHf I u)) (dualDim I))
+        | .none => ("none", [])
+      let (t, s) := pdhgSteps tau sigma me
+      s!"ok K={fmtVecs (images (Kf I) I.n)} KH={fmtVecs (images (KHf I) (dualDim I))} fc={fmtVecs fc} pg={fmtVecs pg} gp={fmtRat su.gammaP} gd={fmtRat su.gammaD} side={side} E={fmtVecs E} tau={fmtRat t} sigma={fmtRat s}"
+    | _, _, _, _, _, _, _ => "err bad-op"
+  | some "admm-setup" =>
+    match parseInst? toks, getR "rho", getVs "px", getVs "pv", getVs "pu" with
+    | some I, some rho, some px, some pv, some pu =>
+      let pr : Option (Rat → RV → RV) := I.prox.map fun p => p.eval
+      match I.G with
+      | none =>
+        let M := images (admmSysNoG I.Af I.AHf I.lam rho) I.n
+        let r := (List.zip pv pu).map fun (v, u) => admmRhsNoG I.AHf I.y I.lam I.z rho v u
+        let v := (List.zip px pu).map fun (x, u) => admmV pr rho x u
+        let u := (zip3 px pu v).map fun (x, u, v) => admmU u x v
+        s!"ok M={fmtVecs M} r={fmtVecs r} v={fmtVecs v} u={fmtVecs u} Gx={fmtVecs px}"
+      | some G =>
+        let M := images (admmSysG I.Af I.AHf G.mulVec G.tMulVec I.lam rho) I.n
+        let r := (List.zip pv pu).map fun (v, u) => admmRhsG I.AHf G.tMulVec I.y I.lam I.z rho v u
+        let gx := px.map G.mulVec
+        let v := (List.zip gx pu).map fun (x, u) => admmV pr rho x u
+        let u := (zip3 gx pu v).map fun (x, u, v) => admmU u x v
+        s!"ok M={fmtVecs M} r={fmtVecs r} v={fmtVecs v} u={fmtVecs u} Gx={fmtVecs gx}"
+    | _, _, _, _, _ => "err bad-op"
+  | some "obj" =>
+    match parseInst? toks, getV "x", kv toks "g" with
+    | some I, some x, some g =>
+      let Gx := match I.G with | none => x | some G => G.mulVec x
+      let gf : Option (RV → Rat) :=
+        if g == "1" then I.prox.map fun p => fun v => (p.g v).getD 0 else none
+      match objective (S := Rat) RV.nsq RV.nsq I.Af I.y I.lam I.z I.prox.isSome gf Gx x with
+      | some o => s!"ok {fmtRat o}"
+      | none => "ok raise"
+    | _, _, _ => "err bad-op"
+  | some "run" =>
+    match parseInst? toks, kv toks "solver", getV "x0", getN "iters" with
+    | some I, some solver, some x0, some iters =>
+      let P : Option (RV → RV) :=
+        match (kv toks "P") with
+        | some "none" | none => none
+        | some s => (parseVec? s).map fun d => fun r => ⟨List.zipWith (· * ·) d.d r.d⟩
+      if solver == "cg" then
+        if I.prox.isSome then "err reject" else
+        s!"ok {fmtVec (cgRun (cgSys I.Af I.AHf I.lam) P (cgRhs I.AHf I.y I.lam I.z) x0 iters)}"
+      else if solver == "gm" then
+        match getR "alpha", kv toks "acc" with
+        | some alpha, some acc =>
+          if I.G.isSome then "err reject" else
+          let pr : Option (Rat → RV → RV) := I.prox.map fun p => p.eval
+          let tr := iterate (gmStep (gmGrad I.Af I.AHf I.y I.lam I.z) alpha pr (acc == "1")) iters
+            { x := x0, z := x0, t := 1 }
+          s!"ok {fmtVecs (tr.map (·.x))}"
+        | _, _ => "err bad-op"
+      else if solver == "pdhg" then
+        match getR "tau", getR "sigma" with
+        | some tau, some sigma =>
+          let su : PdhgSetup Rat RV RV RV := pdhgSetup I.y I.lam I.z I.prox.isSome I.G.isSome
+          let u2n := match I.G with | none => 0 | some G => G.rows.length
+          let tr := iterate (pdhgStep I su) iters
+            { x := x0, xExt := x0, u1 := RV.zeros I.A.rows.length, u2 := RV.zeros u2n, tau := tau, sigma := sigma,
+              tauMin := ratAbs tau, sigmaMin := ratAbs sigma }
+          s!"ok {fmtVecs (tr.map (·.x))}"
+        | _, _ => "err bad-op"
+      else if solver == "admm" then
+        match getR "rho", getN "maxcg" with
+        | some rho, some maxcg =>
+          let v0 := match I.G with | none => x0 | some G => G.mulVec x0
+          let tr := iterate (admmStep I rho P maxcg) iters { x := x0, v := v0, u := RV.zeros v0.d.length }
+          s!"ok {fmtVecs (tr.map (·.x))}"
+        | _, _ => "err bad-op"
+      else "err bad-op"
+    | _, _, _, _ => "err bad-op"
+  | _ => "err bad-op"
 end SigpyVerif.Drv.C14
